@@ -871,6 +871,7 @@ def _expand_class(body):
 
 # ---------------------------------------------------------------- R8
 def r8_tables(ctx):
+    K.duplicate_dict_keys(ctx, ['src/scinumtools/units/settings.py', 'src/scinumtools/units/unit_list.py', 'src/scinumtools/units/unit_types.py'], 'unit, prefix and conversion tables')
     cols, rows = unit_standard(ctx.repo)
     pc, prows = unit_prefixes(ctx.repo)
     dims = module_const(ctx.repo, "DIMENSION_LIST")
@@ -1003,6 +1004,8 @@ def r9_dimensions(ctx):
 
 
 def r10_solver_state(ctx):
+    from . import C01 as _C01b
+    _C01b.r8_parenthesis(ctx)       # a parenthesised group takes exactly its declared number of arguments: `kg/(m,s)` is an error, not `kg/m` (shared with C01.R8)
     _C02.r1_kill_before_use(ctx)
     from . import C01 as _C01, C09 as _C09
     _C09.r6_no_derived_state(ctx)   # a memo of parsed symbols / unit bases makes a parse depend on earlier (rejected or re-registered) ones
